@@ -47,15 +47,37 @@ class RuleDump:
         self.why = None
         self.X = self.W = None   # float arrays as returned
         self.nodes = None      # sorted list of (tuple of exact Fractions, Fraction)
+        self.aliased = None    # set when a second request differs from the first after the first result was overwritten
 
     @property
     def key(self):
         return f'rule={self.cell}:order={self.n}'
 
 
-def call(cell, n):
+def _scribble(X, W):
+    """what a caller may legitimately do with arrays it was handed: overwrite them in place"""
+    for a, v in ((X, 7.0), (W, -1.0)):
+        try:
+            a[...] = v
+        except (ValueError, TypeError):      # read-only result: nothing to corrupt
+            pass
+
+
+def call(cell, n, twice=True):
+    """get_quadrature(cell, n).  With ``twice`` the function is requested two times: the first result is copied and
+    then overwritten in place, the second result must be bit-identical to the copy (the rule of a (cell, order) pair
+    may not depend on what earlier callers did with their arrays); the SECOND answer is what is dumped and checked."""
     from skfem.quadrature import get_quadrature
     d = RuleDump(cell, n)
+    first = None
+    if twice:
+        try:
+            X0, W0 = get_quadrature(refdom(cell), n)
+            X0, W0 = np.asarray(X0), np.asarray(W0)
+            first = (X0.copy(), W0.copy())
+            _scribble(X0, W0)
+        except Exception:
+            first = None
     try:
         X, W = get_quadrature(refdom(cell), n)
     except NotImplementedError:
@@ -68,6 +90,10 @@ def call(cell, n):
     X = np.asarray(X)
     W = np.asarray(W)
     d.X, d.W = X, W
+    if first is not None and not (first[0].shape == X.shape and first[1].shape == W.shape
+                                  and np.array_equal(first[0], X, equal_nan=True) and np.array_equal(first[1], W, equal_nan=True)):
+        d.aliased = {'first_request_points': first[0].tolist()[:3], 'first_request_weights': first[1].tolist()[:8],
+                     'second_request_points': X.tolist()[:3], 'second_request_weights': W.tolist()[:8]}
     if X.ndim != 2 or W.ndim != 1 or X.shape != (dim, W.shape[0]) or W.shape[0] == 0:
         d.kind, d.why = 'invalid', f'shapes {X.shape} {W.shape} for a {dim}-dimensional cell'
         return d
